@@ -1,6 +1,7 @@
 package main
 
 import (
+	"fmt"
 	"go/ast"
 	"go/types"
 	"hash/fnv"
@@ -76,7 +77,7 @@ func (x *Exec) monitorCall(e *ast.CallExpr, st *State, lock bool) bool {
 // checkSinks: `sink <callee> requires <expr>` clauses of the unit under
 // verification are obligations at every call of that callee, evaluated in
 // the caller's scope (locals visible at the call).
-func (x *Exec) checkSinks(e *ast.CallExpr, st *State, calleeShort string) {
+func (x *Exec) checkSinks(e *ast.CallExpr, st *State, calleeShort string, args []Value) {
 	if x.c == nil {
 		return
 	}
@@ -87,7 +88,15 @@ func (x *Exec) checkSinks(e *ast.CallExpr, st *State, calleeShort string) {
 		}
 		old := x.curPos
 		x.curPos = e.Pos()
-		g := x.cbool(sk.C.Expr, x.cctx(st, sk.C))
+		cx := x.cctx(st, sk.C)
+		// arg0, arg1, ... denote the values passed at this call
+		cx.env = map[string]cbind{}
+		for i, a := range args {
+			if i < len(e.Args) {
+				cx.env[fmt.Sprintf("arg%d", i)] = cbind{a, x.info.TypeOf(e.Args[i])}
+			}
+		}
+		g := x.cbool(sk.C.Expr, cx)
 		x.curPos = old
 		label := sk.C.Label
 		if label == "" {
@@ -122,8 +131,20 @@ func (x *Exec) checkCallbackLit(lit *ast.FuncLit, st *State) {
 	var rets []*State
 	old := x.litReturn
 	x.litReturn = &rets
-	x.stmts(lit.Body.List, []*State{s2}, nil)
+	ends := x.stmts(lit.Body.List, []*State{s2}, nil)
 	x.litReturn = old
+	if x.c == nil || len(x.c.LitEnsures[ord]) == 0 {
+		return
+	}
+	for _, rs := range append(rets, ends...) {
+		for _, en := range x.c.LitEnsures[ord] {
+			oldPos := x.curPos
+			x.curPos = lit.Body.Pos()
+			g := x.cbool(en.Expr, x.cctx(rs, en))
+			x.curPos = oldPos
+			x.obligeClause(rs, "lit", fmt.Sprintf("lit%d.ensures.%s", ord, en.Label), en, g, lit.Pos())
+		}
+	}
 }
 
 // mentionsArrayEq: t contains an equality between array-sorted terms one of
@@ -191,12 +212,16 @@ func (x *Exec) checkFrame() {
 				continue
 			}
 			if j := strings.LastIndex(mod, ".#"); j >= 0 {
-				declared["ghost:"+mod[j+2:]] = true
+				for _, g := range x.eng.cs.expandGhost(mod[j+2:]) {
+					declared["ghost:"+g] = true
+				}
 				continue
 			}
 			pname, f := mod[:i], mod[i+1:]
 			if strings.HasPrefix(f, "#") {
-				declared["ghost:"+strings.TrimPrefix(f, "#")] = true
+				for _, g := range x.eng.cs.expandGhost(strings.TrimPrefix(f, "#")) {
+					declared["ghost:"+g] = true
+				}
 				continue
 			}
 			if pt := x.paramType(x.c, x.unit.Fn, pname); pt != nil {
